@@ -182,8 +182,12 @@ class Lowering:
         return out
 
     def side_conditions(self):
-        return list(self.axioms) + [c != 0 for c in self.nonzero.values()] + (
+        out = list(self.axioms) + [c != 0 for c in self.nonzero.values()] + (
             self.congruence_axioms() if self.congruence else [])
+        if CTX.xr is not None or getattr(CTX, "xr_axioms", False):
+            from . import xr as _xr
+            out += _xr.axioms(self, z3)
+        return out
 
     def model_point(self, m):
         """z3 model -> {var name: float} for the input variables (missing ones keep the current model)."""
